@@ -706,3 +706,58 @@ impl Engine for C11M32Engine {
         CaseReport { viols: viol::take(), nontrivial: shape >= 5 || shape == 1 || shape == 4, labels: vec!["32-bit"], trace: if trace { vec![format!("{} -> {}", what, if ok { "OK" } else { "FAILED" })] } else { vec![] } }
     }
 }
+
+
+// ------------------------------------------------------------------------------------
+// C05 on a 32-bit usize: slice lengths whose byte size exceeds the address space must be refused (a refusal
+// panic or the allocation-error abort), never answered with a handle over a short block
+// ------------------------------------------------------------------------------------
+
+pub struct C05M32Engine;
+
+pub const M32_OVF_CTORS: [(&str, u64); 4] = [("Arc::<[MaybeUninit<u32>]>::new_uninit_slice", 4), ("Arc::<[MaybeUninit<u64>]>::new_uninit_slice", 8), ("UniqueArc::<[MaybeUninit<u16>]>::new_uninit_slice", 2), ("UniqueArc::from_header_and_uninit_slice::<u64,u32>", 4)];
+
+impl Engine for C05M32Engine {
+    fn name(&self) -> String {
+        "c05-miri-i686/overflow".into()
+    }
+    fn params_len(&self) -> usize {
+        6
+    }
+    fn ops_range(&self) -> (usize, usize) {
+        (0, 0)
+    }
+    fn run(&self, c: &ByteCase, trace: bool) -> CaseReport {
+        let _ = viol::take();
+        if let Some(why) = m32_unavailable() {
+            return CaseReport { viols: vec![], nontrivial: false, labels: vec!["miri-i686-unavailable"], trace: if trace { vec![format!("skipped: {}", why)] } else { vec![] } };
+        }
+        let ctor = pick(c.p(0), M32_OVF_CTORS.len());
+        let size = M32_OVF_CTORS[ctor].1;
+        let raw = u32::from_le_bytes([c.p(2), c.p(3), c.p(4), c.p(5)]) as u64;
+        // lengths whose byte size is >= 2^32 (also just above, and the extremes)
+        let min_len = (1u64 << 32) / size;
+        let len = match pick(c.p(1), 6) {
+            0 => min_len,
+            1 => min_len + 1 + raw % 16,
+            2 => u32::MAX as u64,
+            3 => u32::MAX as u64 - raw % 64,
+            4 => (1u64 << 31) + raw % 1024,
+            _ => min_len + raw % (u32::MAX as u64 - min_len),
+        }
+        .min(u32::MAX as u64);
+        let mut o = m32_run_args(&["ovf".to_string(), ctor.to_string(), len.to_string()]);
+        let silent = |o: &child::Outcome| o.timed_out || (!o.stdout.contains("REFUSED") && !o.stdout.contains("RETURNED") && !o.stderr.contains("aborted execution") && !o.stderr.contains("Undefined Behavior") && !o.stderr.contains("memory allocation"));
+        if silent(&o) {
+            o = m32_run_args(&["ovf".to_string(), ctor.to_string(), len.to_string()]);
+        }
+        if silent(&o) {
+            return CaseReport { viols: vec![], nontrivial: false, labels: vec!["miri-i686-run-produced-nothing (inconclusive)"], trace: vec![] };
+        }
+        let what = format!("[32-bit usize, Miri i686] {} with length {:#x} ({} bytes each: {:#x} bytes)", M32_OVF_CTORS[ctor].0, len, size, len * size);
+        if o.stdout.contains("RETURNED") || o.stderr.contains("Undefined Behavior") {
+            viol::report_sig(&["C05"], "F.m32-overflow", format!("m32-ovf:{}", M32_OVF_CTORS[ctor].0), format!("{}: the request does not fit a 32-bit address space and must be refused; got {} {}", what, o.stdout.trim(), o.stderr.lines().find(|l| l.contains("Undefined Behavior")).unwrap_or("")));
+        }
+        CaseReport { viols: viol::take(), nontrivial: true, labels: vec!["32-bit", "overflow-adjacent length"], trace: if trace { vec![format!("{} -> {}", what, o.stdout.trim())] } else { vec![] } }
+    }
+}
